@@ -88,10 +88,62 @@ class VExt(Extender):
         return r
 
 
-class _LogHandler(logging.Handler):
-    """Turns `logging.error("VExt <id> <msg>")` of the composite's wrapper into an `L<id>` event."""
+class _PlainBase(Extender):
+    """An extender that implements ONLY the documented interface (wraps / __call__ / the priority property) - in
+    particular it has no `name` attribute.  One subclass per id (`PExt<id>`), so the composite's log line
+    "<class name> <name or ''> <exception>" still identifies it."""
 
-    PAT = re.compile(r"^VExt (\d+) ")
+    IDENT = 0
+
+    def configure(self, prio: Optional[int], wraps: Iterable[str], beh: str) -> "_PlainBase":
+        if prio is not None:
+            self.priority = prio  # the documented setter
+        self._wr = {ExtenderHook[w] for w in wraps}
+        self._beh = beh
+        return self
+
+    @property
+    def ident(self) -> int:
+        return type(self).IDENT
+
+    @property
+    def beh(self) -> str:
+        return self._beh
+
+    def wraps(self) -> Set[ExtenderHook]:
+        return self._wr
+
+    _log = VExt._log
+
+    def __call__(self, func: Any, *a: Any, **kw: Any) -> Any:
+        self._log("E", func, a)
+        if self._beh == "rb":
+            raise Boom(f"boom-before-{self.ident}")
+        r = func(*a, **kw)
+        if self._beh == "ra":
+            raise Boom(f"boom-after-{self.ident}")
+        self._log("X", func, a)
+        return r
+
+
+PLAIN: Dict[int, Any] = {}
+for _i in range(1, 9):
+    PLAIN[_i] = type(f"PExt{_i}", (_PlainBase,), {"IDENT": _i, "__module__": __name__})
+    globals()[f"PExt{_i}"] = PLAIN[_i]  # module attribute: picklable into worker processes
+
+
+def mk_ext(e: Dict[str, Any], wraps: Optional[Iterable[str]] = None) -> Any:
+    """The real Extender instance of an extender spec; `plain` = class without a `name` attribute."""
+    wr = list(wraps if wraps is not None else e["wraps"])
+    if e.get("plain"):
+        return PLAIN[e["id"]]().configure(e["prio"], wr, e["beh"])
+    return VExt(e["id"], e["prio"], wr, e["beh"])
+
+
+class _LogHandler(logging.Handler):
+    """Turns the composite wrapper's error record ("VExt <id> <msg>" / "PExt<id>  <msg>") into an `L<id>` event."""
+
+    PAT = re.compile(r"^(?:VExt |PExt)(\d+) ")
 
     def emit(self, rec: logging.LogRecord) -> None:
         try:
@@ -244,7 +296,7 @@ def weak_orderings(n: int) -> List[Tuple[int, ...]]:
 
 def run_composite_case(case: Dict[str, Any]) -> Dict[str, Any]:
     global _SINK
-    exts = [VExt(e["id"], e["prio"], [CALC], e["beh"]) for e in case["exts"]]
+    exts = [mk_ext(e, [CALC]) for e in case["exts"]]
     _SINK = []
     try:
         comp = _CompositeExtender(list(exts), ExtenderHook[CALC])
@@ -262,19 +314,39 @@ def suite_composite(ctx: Ctx, nmax: int) -> None:
         for prios in itertools.product(range(n), repeat=n):
             for behs in itertools.product(["pass", "rb", "ra"], repeat=n):
                 for w in W_KINDS:
-                    cases.append({"exts": [{"id": i + 1, "prio": prios[i], "beh": behs[i]} for i in range(n)], "w": w})
-    check_composite(ctx, cases)
+                    # every case with every assignment of extender classes: with a `name` attribute (VExt) / implementing
+                    # only the documented interface (PExt<i>); for n = 4 the two uniform and two random assignments
+                    masks = list(itertools.product([False, True], repeat=n))
+                    if n >= 4:
+                        masks = [masks[0], masks[-1]] + ctx.rng.sample(masks[1:-1], 2)
+                    for mask in masks:
+                        cases.append({"exts": [{"id": i + 1, "prio": prios[i], "beh": behs[i], "plain": mask[i]} for i in range(n)], "w": w})
+    for i in range(0, len(cases), 100000):
+        check_composite(ctx, cases[i : i + 100000])
 
 
 def check_composite(ctx: Ctx, cases: List[Dict[str, Any]]) -> None:
-    reqs = [{"op": "C20.composite", "exts": [dict(e, wraps=[CALC]) for e in c["exts"]], "w": c["w"], "n": 0} for c in cases]
-    outs = ctx.lean.batch(reqs) if ctx.lean else [None] * len(cases)
+    # the model does not depend on which class an extender is: one request per distinct (priorities, behaviours, w)
+    from harness.core import cjson
+
+    uniq: Dict[str, int] = {}
+    reqs: List[Dict[str, Any]] = []
+    idx: List[int] = []
+    for c in cases:
+        r = {"op": "C20.composite", "exts": [{"id": e["id"], "prio": e["prio"], "beh": e["beh"], "wraps": [CALC]} for e in c["exts"]], "w": c["w"], "n": 0}
+        k = cjson(r)
+        if k not in uniq:
+            uniq[k] = len(reqs)
+            reqs.append(r)
+        idx.append(uniq[k])
+    uouts = ctx.lean.batch(reqs) if ctx.lean else None
+    outs = [uouts[i] if uouts is not None else None for i in idx]
     for c, o in zip(cases, outs):
         impl = run_composite_case(c)
         n = len(c["exts"])
         pr = [e["prio"] for e in c["exts"]]
         nontriv = n >= 2 or any(e["beh"] != "pass" for e in c["exts"])
-        ctx.case("composite", c, nontriv, n_ext=n, ties=len(set(pr)) < n, raisers=sum(e["beh"] != "pass" for e in c["exts"]))
+        ctx.case("composite", c, nontriv, n_ext=n, ties=len(set(pr)) < n, raisers=sum(e["beh"] != "pass" for e in c["exts"]), nameless=sum(bool(e.get("plain")) for e in c["exts"]))
         if o is not None:
             m = {"trace": o["trace"], "calls": o["calls"], "out": o["out"]}
             i = {"trace": impl["trace"], "calls": impl["calls"], "out": impl["out"]}
@@ -337,7 +409,7 @@ def run_cfw_case(case: Dict[str, Any]) -> Dict[str, Any]:
     from mloda.core.abstract_plugins.components.feature import Feature
     from mloda.core.abstract_plugins.components.feature_set import FeatureSet
 
-    objs = {e["id"]: VExt(e["id"], e["prio"], e["wraps"], e["beh"]) for e in case["exts"]}
+    objs = {e["id"]: mk_ext(e) for e in case["exts"]}
     extset = set(objs.values())
     cfw = _mk_cfw(extset)
     order = [x.ident for x in cfw.function_extender]
@@ -354,7 +426,7 @@ def run_cfw_case(case: Dict[str, Any]) -> Dict[str, Any]:
             s = {"kind": "composite", "ids": [x.ident for x in sel.extenders]}
             if sel.function_type != ExtenderHook[hk]:
                 s["function_type"] = str(sel.function_type)
-        elif isinstance(sel, VExt) and sel is objs.get(sel.ident):
+        elif isinstance(sel, (VExt, _PlainBase)) and sel is objs.get(sel.ident):
             s = {"kind": "bare", "ids": [sel.ident]}
         else:
             s = {"kind": "other:" + type(sel).__name__}
@@ -384,7 +456,7 @@ def cfw_cases(ctx: Ctx) -> Iterable[Dict[str, Any]]:
             p: Optional[int] = vals[lev[i]]
             if p == 100 and ctx.rng.random() < 0.5:
                 p = None  # leave `_priority` unset: the default 100 applies
-            exts.append({"id": i + 1, "prio": p, "wraps": list(wraps[i]), "beh": behs[i]})
+            exts.append({"id": i + 1, "prio": p, "wraps": list(wraps[i]), "beh": behs[i], "plain": ctx.rng.random() < 0.5})
         wk = {VIN: ctx.rng.choice([[1], [1], [None]]), VOUT: ctx.rng.choice([[1], [1], [None]]), CALC: ctx.rng.choice(W_KINDS)}
         return {"exts": exts, "w": wk}
 
@@ -563,7 +635,7 @@ def gen_exts(ctx: Ctx, allow_raise: bool, allow_unprotected: bool = False) -> Li
             p = None
         wr = rng.choice(WRAP_OPTS_ALL[1:] + [[CALC, VIN, VOUT]] * 3)
         beh = rng.choice(["pass", "pass", "rb", "ra"]) if allow_raise else "pass"
-        exts.append({"id": i + 1, "prio": p, "wraps": list(wr), "beh": beh})
+        exts.append({"id": i + 1, "prio": p, "wraps": list(wr), "beh": beh, "plain": rng.random() < 0.5})
     if not allow_unprotected:
         # a single matching extender is called without try/except (model fact `single_extender_unprotected`): keep
         # raisers only on kinds where they are part of a chain
@@ -678,7 +750,7 @@ def run_plan_once(plan: Dict[str, Any], mode: str, exts: Optional[List[Dict[str,
     extset = None
     order = None
     if exts is not None:
-        objs = [VExt(e["id"], e["prio"], e["wraps"], e["beh"]) for e in exts]
+        objs = [mk_ext(e) for e in exts]
         extset = set(objs)
         order = [x.ident for x in extset]
     _COUNTER["n"] = 0
@@ -970,6 +1042,7 @@ def gen_e2e_cases(ctx: Ctx, n: int) -> List[Dict[str, Any]]:
           "request": ["d0_1", "a0"], "stateful": False}  # fmt: skip
     for mode in ["SYNC", "THREADING", "MULTIPROCESSING"]:
         cases.append({"plan": p0, "mode": mode, "exts": three})
+        cases.append({"plan": p0, "mode": mode, "exts": [dict(e, plain=True) for e in three]})  # documented interface only
     # the raise-after re-run on a non-idempotent calculate_feature (reproduces the function-level finding end to end)
     ps = {"lineages": [{"root_cols": {"a0": [1, 2], "b0": [3, 4]}, "root_fw": "pa", "steps": []}], "request": ["a0"], "stateful": True}
     cases.append({"plan": ps, "mode": "SYNC", "exts": [{"id": 1, "prio": 1, "wraps": [CALC], "beh": "pass"}, {"id": 2, "prio": 2, "wraps": [CALC], "beh": "ra"}]})
